@@ -12,6 +12,7 @@ import Rip.Driver.C17
 import Rip.Driver.C18
 import Rip.Driver.C16
 import Rip.Driver.C07
+import Rip.Driver.C05
 import Rip.Driver.C04
 import Rip.Driver.C08
 import Rip.Driver.C19
@@ -44,6 +45,7 @@ def dispatch (line : String) : String :=
     | "c19" => Rip.Driver.C19.handle rest
     | "c08" => Rip.Driver.C08.handle rest
     | "c04" => Rip.Driver.C04.handle rest
+    | "c05" => Rip.Driver.C05.handle rest
     | "c07" => Rip.Driver.C07.handle rest
     | "c16c" => Rip.Driver.C16.handleC rest
     | "c16a" => Rip.Driver.C16.handleA rest
